@@ -35,6 +35,13 @@ let handle (line : string) : string =
   | ["vote"; bs; cs] ->
       let (o, s) = drv_vote (n_of_int (int_of_string bs)) (list_of_arg cs) in
       Printf.sprintf "%s %d" (hex_of_bytes o) (int_of_n s)
+  | ["diff"; bs; s1; s2; f1; f2] ->
+      let i x = n_of_int (int_of_string x) in
+      let ((d, t), same) = drv_diff (i bs) (i s1) (i s2) (bytes_of_hex f1) (bytes_of_hex f2) in
+      Printf.sprintf "%d %d %d" (int_of_n d) (int_of_n t) (if same then 1 else 0)
+  | ["diffdir"; bs; rk; rv; ok; ov] ->
+      let (((d, t), (c, n)), e) = drv_diffdir (n_of_int (int_of_string bs)) (list_of_arg rk) (list_of_arg rv) (list_of_arg ok) (list_of_arg ov) in
+      Printf.sprintf "%d %d %d %d %d" (int_of_n d) (int_of_n t) (int_of_n c) (int_of_n n) (int_of_n e)
   | _ -> "ERR bad request"
 
 let () =
